@@ -108,8 +108,21 @@ impl Project {
         if self.last.borrow().as_ref() == Some(&key) {
             return;
         }
-        let _ = std::fs::remove_dir_all(self.root.join("src"));
-        write_project(&self.root, schema, files).expect("write project");
+        let same_layout = self.last.borrow().as_ref().is_some_and(|(s, f)| {
+            s == schema && f.len() == files.len() && f.iter().zip(files.iter()).all(|(a, b)| a.0 == b.0)
+        });
+        if same_layout {
+            // only the files whose text changed
+            let last = self.last.borrow();
+            for (old, new) in last.as_ref().unwrap().1.iter().zip(files.iter()) {
+                if old.1 != new.1 {
+                    std::fs::write(self.root.join(&new.0), &new.1).expect("write file");
+                }
+            }
+        } else {
+            let _ = std::fs::remove_dir_all(self.root.join("src"));
+            write_project(&self.root, schema, files).expect("write project");
+        }
         *self.last.borrow_mut() = Some(key);
     }
     /// Server on `files`; when `open_doc` is given, that text is sent with didOpen
